@@ -713,12 +713,29 @@ def rule_port_and_want(ctx, res):
     ds = Sym(d)
     ds.run()
     got = {}
+    extra = []
     for p in ds.complete_paths():
         if agg_variant(p.ret) != 'Ok':
             continue
         imp = [literal(c)[3] for c in p.conds if literal(c)[0] == 'bool' and field_chain(literal(c)[1])[-1:] == ['implied_port']]
+        # nothing else may decide the outcome (a test on the port value, say, would turn an explicit port into "implied")
+        for c in p.conds:
+            l = literal(c)
+            if l[0] == 'bool' and field_chain(l[1])[-1:] == ['implied_port']:
+                continue
+            if l[0] == 'variant' and isinstance(l[1], tuple) and l[1][0] == 'call' and (l[1][1].endswith('Try>::branch') or l[1][1].endswith('::deserialize')):
+                continue
+            if l[0] == 'bool' and term_int(l[1]) is not None:
+                continue
+            extra.append('%s %s' % (l[0], fmt(l[1])[:60]))
         v = p.ret[2].get('0')
-        got[imp[-1] if imp else None] = agg_variant(v) if agg_variant(v) == 'None' else ('Some(port)' if field_chain(strip_transparent(v[2].get('0')))[-1:] == ['port'] else 'Some(?)')
+        out = agg_variant(v) if agg_variant(v) == 'None' else ('Some(port)' if field_chain(strip_transparent(v[2].get('0')))[-1:] == ['port'] else 'Some(?)')
+        key = imp[-1] if imp else None
+        if key in got and got[key] != out:
+            out = 'ambiguous'
+        got[key] = out
+    if extra:
+        got['other conditions'] = sorted(set(extra))[:3]
     res.check(got == {True: 'None', False: 'Some(port)'}, 'TABLE', d.path, 'decode: implied_port set -> no port (use the source port); otherwise Some(port)', detail=str(got))
     db = ctx.body('message::port::deserialize_bool')
     res.touch(db)
@@ -818,13 +835,22 @@ def rule_port_and_want(ctx, res):
     norm = {k: {(names(e), l) for e, l in v} for k, v in table.items()}
     exp = {'None': {((), 0)}, 'V4': {(('n4',), 1)}, 'V6': {(('n6',), 1)}, 'Both': {(('n4', 'n6'), 2)}}
     res.check(norm == exp, 'TABLE', wb.path, 'encode want: absent -> [], V4 -> [n4], V6 -> [n6], Both -> [n4, n6]', detail=str(norm))
-    # want decode
+    rule_want_decode(ctx, res)
+
+
+def rule_want_decode(ctx, res):
+    """the `want` list decoder as an automaton over None / V4 / V6 / Both (shared with C05: the families a reply may carry)"""
+    wv = common.enum_variants(ctx, 'message::Want')
+    iwv = {v: k for k, v in wv.items()}
     vb = find_body(ctx, r"^<message::want::deserialize::WantVisitor as .*Visitor<'de>>::visit_seq$")
     res.touch(vb)
     vs = Sym(vb)
     vs.run()
     res.paths += len(vs.paths)
     trans = {}
+    step_bad = []
+    WANT_STEP = {('None', 'n4'): 'V4', ('None', 'n6'): 'V6', ('V4', 'n4'): 'V4', ('V4', 'n6'): 'Both', ('V6', 'n4'): 'Both', ('V6', 'n6'): 'V6',
+                 ('Both', 'n4'): 'Both', ('Both', 'n6'): 'Both'}
     # the decoder's state: the loop-carried Option<Want> variable (whatever it is called)
     state_locals = {l for l, d in enumerate(vb.locals) if d.get('user') and d.get('ty') == 'std::option::Option<message::Want>' and l > vb.arg_count}
 
@@ -842,6 +868,9 @@ def rule_port_and_want(ctx, res):
         for c in p.conds:
             rel, a, b2, truth = literal(c)
             if rel == 'variant' and on_state(a) and not find_calls(a, 'next_element'):
+                if (a[0] in ('local', 'loopvar')) and isinstance(b2, tuple) and b2[0] == 'not' and {0, 1} <= set(b2[1]):
+                    cur = set()          # neither None nor Some: not a value of an Option (compiler-generated dead arm)
+                    break
                 if a[0] == 'loopvar' or (a[0] in ('local', 'loopvar')):
                     cur &= ({'V4', 'V6', 'Both'} if option_is_some(b2) else {'None'})
                 else:
@@ -870,6 +899,19 @@ def rule_port_and_want(ctx, res):
         for k in cur:
             if word:
                 trans.setdefault((k, word.lower()), set()).add(new)
+            # the whole automaton, not only the four transitions that change the state: a repeated tag keeps the state,
+            # an unknown string keeps the state, Both is absorbing
+            newk = k if new == 'same' else new
+            if word and word.lower() in ('n4', 'n6'):
+                if newk != WANT_STEP[(k, word.lower())]:
+                    step_bad.append('%s --%s--> %s' % (k, word, newk))
+            else:
+                if newk != k:
+                    step_bad.append('%s --%s--> %s' % (k, word or 'other', newk))
+                if not word:
+                    for w in ('n4', 'n6'):
+                        if not ({w, w.upper()} <= neg) and WANT_STEP[(k, w)] != k:
+                            step_bad.append('%s --(%s not told apart)--> %s' % (k, w, newk))
     want = {('None', 'n4'): {'V4'}, ('None', 'n6'): {'V6'}, ('V4', 'n6'): {'Both'}, ('V6', 'n4'): {'Both'}}
     got = {k: v for k, v in trans.items() if k in want}
     if got != want:
@@ -878,7 +920,9 @@ def rule_port_and_want(ctx, res):
         if fb is not None:
             got = {k: v for k, v in fb.items() if k in want}
             trans = fb
-    res.check(got == want, 'TABLE', vb.path, 'decode want: n4 -> V4, n6 -> V6, both in either order -> Both (case-insensitive, other strings ignored)', detail=str(trans))
+            step_bad = ['%s --%s--> %s' % (k[0], k[1], sorted(v)) for k, v in fb.items() if k in WANT_STEP and v != {WANT_STEP[k]}]
+            step_bad += ['%s --%s--> ?' % k for k in WANT_STEP if k not in fb]
+    res.check(got == want and not step_bad, 'TABLE', vb.path, 'decode want: n4 -> V4, n6 -> V6, both in either order -> Both (case-insensitive, other strings ignored)', detail=(str(step_bad[:4]) + ' ' if step_bad else '') + str(trans))
 
 
 def rule_error_shape(ctx, res):
